@@ -64,6 +64,31 @@ def canary(col, oid, results, post, hyps=(), select=None):
     return col.canary_lia(oid, list(hyps), z3.And(*goals) if goals else z3.BoolVal(True))
 
 
+def explore_with_history(qualname, mk, watch, pc0=(), max_states=4):
+    """`whatever an earlier call left behind`: explores qualname once with fresh arguments (mk(ctx, left=())), collects the attributes the call
+    stores on the caller's long-lived objects (watch(state) -> {name: object}; attribute stores are the only way a call can leave state on them
+    in the abstract state of the executor, array contents are versioned stores of their own), and explores it AGAIN for every distinct state so
+    left behind (at most max_states, one per path that differs in the set of values) with those attributes installed on the fresh objects:
+    mk(ctx, left=[(name, attr, value), ...]).  The values are the objects of the first run as they were at the END of that run (in-place writes
+    included).  Returns (first, again); `again` is empty if nothing is left behind, which is the case on code without caches."""
+    first = cx.run_function(qualname, mk, pc0=list(pc0), summaries={}, opts={})
+    states = []
+    for r in first:
+        left = {}
+        objs = watch(r.state)
+        for ev in r.events:
+            if ev['kind'] in ('setattr', 'setattr-opaque'):
+                for who, o in objs.items():
+                    if ev['obj'] is o:
+                        left[(who, ev['attr'])] = ev['value']
+        if left and not any(set(left) == set(l) and all(left[k] is l[k] for k in left) for l in states):
+            states.append(left)
+    again = []
+    for left in states[:max_states]:
+        again += cx.run_function(qualname, lambda ctx, left=left: mk(ctx, left=[(w, a, v) for (w, a), v in left.items()]), pc0=list(pc0), summaries={}, opts={})
+    return first, again
+
+
 def fresh_consts(e):
     """constants introduced by the executor on a path (named <tag>!<n>)"""
     out = {}
